@@ -310,6 +310,8 @@ class RefObj:
             if m.echo == "byte":
                 b = a[0].encode("utf-8", "surrogateescape")
                 return float(b[a[1]]) if 0 <= a[1] < len(b) else -1.0
+            if m.echo == "mix":
+                return float(a[0]) * 2 + float(a[1])
             if m.echo == "scaled":
                 return o.num["pt"] * a[0]
             if m.echo == "enum10":
